@@ -31,15 +31,12 @@ def sayErr (b : Bytes) : TM Unit := modify fun l => { l with err := l.err ++ b }
 def abortMsg (v : Value) (msg : String) : TM Value := do sayErr (asc msg ++ [10]); pure v
 def liftVM {α} (x : VM α) : TM α := fun l => match x with | .ok a => .ok (a, l) | .error e => .error e
 /-- a C++ exception derived from std::exception with this `what()` -/
-def throwExc {α} (what : String) : TM α := liftVM (.error (.abnormal ("throw:" ++ what)))
+def throwExc {α} (what : String) : TM α := liftVM (.error (.exc what))
 
 /-- `what()` of the exception a `VErr` stands for, if it is one (`Value::int_value` on more than 4 bytes throws
     scriptnum_error "script number overflow") -/
 def VErr.excWhat : VErr → Option String
-  | .abnormal k =>
-    if k.startsWith "throw:" then some ((k.drop 6).toString)
-    else if k == "uncaught scriptnum_error in Value::int_value" then some "script number overflow"
-    else none
+  | .exc w => some w
   | _ => none
 
 /-- the value after the non-const `data_value()` ran on it (value.h:285): `data` is rewritten from the active
@@ -520,7 +517,7 @@ def valueBodyF (cx : VCtx) (mk : Bytes → Nat → TM Value) (full : Bytes) (vle
       else pure (classifyPlainF base full vlen)
 
 def valueOfF (cx : VCtx) : Nat → Bytes → Nat → TM Value
-  | 0 => fun _ _ => liftVM (.error (.abnormal "nesting fuel exhausted"))
+  | 0 => fun _ _ => liftVM (.error (.exit1 depthMsg))      -- `Value::DepthGuard`: more than 200 levels
   | fuel + 1 => fun full vlen => valueBodyF cx (valueOfF cx fuel) full vlen
 
 /-- `Value(std::vector<Value>&& v, bool fallthrough_single)` (value.h:137) -/
@@ -602,7 +599,7 @@ def tfCommand (cx : VCtx) (argv : List Bytes) : TfResult :=
       | some e =>
         if args.isEmpty then { out := asc e.help ++ [10] }
         else
-          let depth := (args.foldl (fun n a => n + a.length) 0) + 4
+          let depth := valueDepthLimit
           let act : TM Unit := do
             let vs ← parseArgsListM (valueOfF cx depth) args [] 0 []
             let v ← valueOfVector vs true
@@ -616,6 +613,6 @@ def tfCommand (cx : VCtx) (argv : List Bytes) : TfResult :=
 
 /-- `Value v(text); v.println();` — the inline form as the Value parser evaluates it -/
 def inlineEval (cx : VCtx) (text : Bytes) : Except VErr (Value × Log) :=
-  (do let v ← valueOfF cx (text.length + 4) text text.length; v.println; pure v : TM Value) {}
+  (do let v ← valueOfF cx valueDepthLimit text text.length; v.println; pure v : TM Value) {}
 
 end Btcdeb.Model
